@@ -150,10 +150,12 @@ def sub_req(case):
                     t = w.sweep(recips[0], min_confirms=req['min_confirms'], fee=fee if fee not in (None,) else None,
                                 max_utxos=req['max_utxos'] or 999)
                     requested = None
+                    case = dict(case, _sweep_target=recips[0])
                 elif method == 'sweep_list':
                     tl = [(recips[0], min(amt, 2000))] + [(own_addr if len(recips) < 2 else recips[1], 0)]
                     t = w.sweep(tl, min_confirms=req['min_confirms'], fee=fee)
                     requested = [tl[0]]
+                    case = dict(case, _remainder_to=tl[1][0])      # the (address, 0) entry receives what is left
                 elif method in EXPLICIT:
                     sel = sorted(ledger.items())
                     if method.startswith('inputs_first'):
@@ -222,7 +224,7 @@ def sub_req(case):
                 for d in _judge(t2, case2, led2, requested, own, net, explicit_fee, fee, 'send_twice'):
                     d['sig'] = 'second|' + d['sig']
                     devs.append(d)
-            elif sum(u['value'] for u in led2.values()) > 2 * sum(v for _, v in outputs) + 200000:
+            elif req['nchange'] == 1 and sum(u['value'] for u in led2.values()) > 2 * sum(v for _, v in outputs) + 200000:
                 devs.append({'sig': 'second|refused_although_funds_are_ample', 'detail': {'case': case}})
         return {'devs': devs, 'out': 'tx:%din:%dout' % (len(t.inputs), len(t.outputs)), 'states': [_skey(case)],
                 'trans': 1, 'traces': 1, 'nt': [_skey(case)]}
@@ -293,7 +295,8 @@ def _judge(t, case, ledger, requested, own, net, explicit_fee, fee_req, method):
                 dev('recipient|script_differs_from_address|%s' % tagm, address=a, script=hit[0][2].hex())
     else:
         # plain sweep: exactly one output to the target holding everything but the fee
-        tgt = [x for x in rest if x[0] not in own]
+        tgt = [x for x in rest if x[0] == case.get('_sweep_target')] if case.get('_sweep_target') else \
+            [x for x in rest if x[0] not in own]
         if len(tgt) != 1:
             dev('sweep|not_exactly_one_target_output', outputs=[(x[0], x[1]) for x in outs])
         for x in tgt:
@@ -302,6 +305,8 @@ def _judge(t, case, ledger, requested, own, net, explicit_fee, fee_req, method):
             if spk is not None and x[2] != spk:
                 dev('recipient|script_differs_from_address|%s' % tagm, address=x[0], script=x[2].hex())
     for a, v, s in rest:
+        if a == case.get('_remainder_to'):
+            continue            # sweep with a list: the entry with amount 0 is the requested receiver of the remainder
         if a not in own:
             dev('change|pays_address_not_owned_by_wallet|%s' % tagm, address=a, value=v)
         else:
